@@ -1,6 +1,7 @@
 import Std.Data.HashMap
 import Driver.Proto
 import Driver.C01
+import Driver.C01E
 import Driver.C02
 import Driver.C03
 import Driver.C04
@@ -24,7 +25,7 @@ import Driver.C20
 open Verif Verif.Driver
 
 def allHandlers : List (String × Handler) :=
-  C01.handlers ++ C02.handlers ++ C03.handlers ++ C04.handlers ++ C05.handlers ++
+  C01.handlers ++ C01E.handlers ++ C02.handlers ++ C03.handlers ++ C04.handlers ++ C05.handlers ++
   C06.handlers ++ C07.handlers ++ C08.handlers ++ C09.handlers ++ C10.handlers ++
   C11.handlers ++ C12.handlers ++ C13.handlers ++ C14.handlers ++ C15.handlers ++
   C16.handlers ++ C17.handlers ++ C18.handlers ++ C19.handlers ++ C20.handlers ++
